@@ -8,6 +8,8 @@ pub mod commit;
 pub mod relabel;
 pub mod unit;
 pub mod parseq;
+pub mod world;
+pub mod data;
 
 /// All harness instances by name (used by the native replay binary).
 #[cfg(not(kani))]
@@ -19,5 +21,7 @@ pub fn registry() -> Vec<(&'static str, fn())> {
     v.extend_from_slice(relabel::INSTANCES);
     v.extend_from_slice(unit::INSTANCES);
     v.extend_from_slice(parseq::INSTANCES);
+    v.extend_from_slice(world::INSTANCES);
+    v.extend_from_slice(data::INSTANCES);
     v
 }
